@@ -80,12 +80,17 @@ def check_call(con, fn, args=(), kwargs=None, self_obj=None):
     ba.apply_defaults()
     env = dict(ba.arguments)
     g = native_globals()
+    for p, value in con.fix.items():
+        if env.get(p) != value:
+            out.pre_ok = False
+            out.violations.append(('requires', '%s == %r' % (p, value), 'precondition false'))
+            return out
     for r in con.requires:
         cl = Clause(r)
         if cl.smt_only:
             continue
         try:
-            if not eval(cl.code, g, dict(env)):
+            if not eval(cl.code, {**g, **env}):
                 out.pre_ok = False
                 out.violations.append(('requires', r, 'precondition false'))
                 return out
@@ -101,7 +106,7 @@ def check_call(con, fn, args=(), kwargs=None, self_obj=None):
             continue
         for name, code in cl.old_codes:
             try:
-                olds[(id(cl), name)] = copy.deepcopy(eval(code, g, dict(env)))
+                olds[(id(cl), name)] = copy.deepcopy(eval(code, {**g, **env}))
             except Exception as e:  # noqa
                 olds[(id(cl), name)] = e
     # `when` clauses of raises are evaluated on the entry state
@@ -109,7 +114,7 @@ def check_call(con, fn, args=(), kwargs=None, self_obj=None):
     for en, (cl, sp) in raises.items():
         if cl is not None and not cl.smt_only:
             try:
-                when_vals[en] = bool(eval(cl.code, g, dict(env)))
+                when_vals[en] = bool(eval(cl.code, {**g, **env}))
             except Exception as e:  # noqa
                 when_vals[en] = None
     try:
@@ -143,7 +148,7 @@ def check_call(con, fn, args=(), kwargs=None, self_obj=None):
         for name, _ in cl.old_codes:
             loc[name] = olds[(id(cl), name)]
         try:
-            ok = bool(eval(cl.code, g, loc))
+            ok = bool(eval(cl.code, {**g, **loc}))
         except Exception as e:  # noqa
             out.violations.append(('post', cl.text, 'clause raised %s: %s' % (type(e).__name__, e)))
             continue
@@ -207,3 +212,50 @@ def _jsonable(x):
         return x
     except Exception:
         return repr(x)
+
+
+def witness_run(con, limit=400):
+    """Run the contract's concrete examples on the real function under the monitor.
+    Serves as (a) vacuity guard by witness (a concrete input satisfies `requires`, each allowed exception is actually
+    raised by some input), (b) native cross-check of the contract text against the real code."""
+    out = {'examples': 0, 'pre_ok': 0, 'returned': 0, 'raised': {}, 'violations': []}
+    if con.examples is None:
+        return out
+    try:
+        fn = resolve_function(con)
+    except Exception as e:  # noqa
+        out['error'] = 'cannot import target: %s' % e
+        return out
+    for ex in con.examples():
+        if out['examples'] >= limit:
+            break
+        out['examples'] += 1
+        ex0 = copy.deepcopy(ex)
+        try:
+            res = check_call(con, fn, kwargs=ex)
+        except Exception as e:  # noqa
+            out.setdefault('harness_errors', []).append('%s: %s' % (type(e).__name__, e))
+            continue
+        if not res.pre_ok:
+            continue
+        out['pre_ok'] += 1
+        if res.exc is not None:
+            n = type(res.exc).__name__
+            out['raised'][n] = out['raised'].get(n, 0) + 1
+        else:
+            out['returned'] += 1
+        if res.violations and len(out['violations']) < 3:
+            out['violations'].append({'input': _jsonable(_describe(ex0)), 'violated': [list(v) for v in res.violations],
+                                      'observed': repr(res.result) if res.exc is None else 'raised %r' % (res.exc,)})
+    return out
+
+
+def _describe(ex):
+    import networkx as nx
+    out = {}
+    for k, v in ex.items():
+        if isinstance(v, nx.Graph):
+            out[k] = {'nodes': [[n, dict(d)] for n, d in v.nodes(data=True)], 'edges': [[a, b, dict(d)] for a, b, d in v.edges(data=True)]}
+        else:
+            out[k] = v
+    return out
